@@ -8,6 +8,7 @@ import (
 func C11(c *Ctx) int {
 	fs, _ := LoadFindings()
 	ps := gen.CatchShapes()
+	ps = append(ps, gen.ThrowShapes()...)
 	nd, capN := 4, 40
 	if !c.Quick() {
 		nd, capN = 5, 600
